@@ -113,5 +113,10 @@ func ClosedDocWith(t *rapid.T, p *Profile, maxTok int, label string, hook func([
 		}
 		doc = append(doc, "end\n"...)
 	}
+	// one document in five ends without a final line ending (the end of input ends the last line); never
+	// when the document ends in a blank line, which is what closes an HTML block of type 6 or 7
+	if bytes.HasSuffix(doc, []byte("\n")) && !bytes.HasSuffix(doc, []byte("\n\n")) && rapid.IntRange(0, 4).Draw(t, label+"noeol") == 0 {
+		doc = doc[:len(doc)-1]
+	}
 	return bytes.ReplaceAll(doc, []byte{0x1e}, []byte("<"))
 }
